@@ -118,14 +118,23 @@ def _kernel(ctx: Ctx) -> None:
 
 
 # ------------------------------------------------------------------ D9.3
+#: dtype expressions that denote 64-bit integers (moptipy's DEFAULT_* are
+#: INTS[-2] = int64 and INTS[-1] = uint64; checked in _bounds)
+WIDE_DTYPES = {"DEFAULT_UNSIGNED_INT", "DEFAULT_INT", "np.uint64",
+               "np.int64", "numpy.uint64", "numpy.int64", "int"}
+
+
 class Arr:
     """Abstract array: which matrix its multiset comes from and its order."""
 
-    def __init__(self, src: str | None, order: str, storage: int) -> None:
+    def __init__(self, src: str | None, order: str, storage: int,
+                 wide: bool = False) -> None:
         self.src = src          # "D" | "F" | None
         self.order = order      # asc | desc | any | clobbered | uninit
         self.storage = storage  # identity of the underlying buffer
         self.reversed_view = False
+        #: element type known to be a 64-bit integer (explicit dtype)
+        self.wide = wide
 
     def __repr__(self) -> str:
         return f"{self.order}({self.src})@{self.storage}"
@@ -164,7 +173,8 @@ def _bounds(ctx: Ctx) -> None:
                     return base
                 st = repo.const(tb.module, sl.step)
                 if st == -1:
-                    r = Arr(base.src, rev(base.order), base.storage)
+                    r = Arr(base.src, rev(base.order), base.storage,
+                            base.wide)
                     r.reversed_view = True
                     return r
             return None
@@ -176,19 +186,27 @@ def _bounds(ctx: Ctx) -> None:
                 b = val(f.value)
                 if b is None:
                     return None
-                return Arr(b.src, b.order, fresh())
+                w = b.wide
+                if f.attr == "astype" and e.args:
+                    w = ast.unparse(e.args[0]) in WIDE_DTYPES
+                return Arr(b.src, b.order, fresh(), w)
             if isinstance(f, ast.Attribute) and f.attr == "ravel":
                 b = val(f.value)
-                return None if b is None else Arr(b.src, b.order, b.storage)
+                return None if b is None else Arr(b.src, b.order, b.storage,
+                                                  b.wide)
             if isinstance(f, ast.Attribute) and f.attr == "sort" and \
                     isinstance(f.value, ast.Name) and f.value.id in (
                     "np", "numpy") and e.args:
                 b = val(e.args[0])
-                return None if b is None else Arr(b.src, "asc", fresh())
+                return None if b is None else Arr(b.src, "asc", fresh(),
+                                                  b.wide)
             if isinstance(f, ast.Attribute) and f.attr in (
                     "empty", "zeros") and isinstance(
                     f.value, ast.Name) and f.value.id in ("np", "numpy"):
-                return Arr(None, "uninit", fresh())
+                dt = ast.unparse(e.args[1]) if len(e.args) > 1 else next(
+                    (ast.unparse(k.value) for k in e.keywords
+                     if k.arg == "dtype"), "")
+                return Arr(None, "uninit", fresh(), dt in WIDE_DTYPES)
         return None
 
     def product(e: ast.expr) -> tuple[str, str] | None:
@@ -239,6 +257,16 @@ def _bounds(ctx: Ctx) -> None:
             problems.append((e, "product does not pair distances with "
                                 "flows"))
             return None
+        vo_ = val(out) if out is not None else None
+        for v, nm in ((va, ast.unparse(a)), (vb, ast.unparse(b)),
+                      (vo_, ast.unparse(out) if out is not None else "")):
+            if v is not None and not v.wide:
+                problems.append((
+                    e, f"`{nm}` has the element type of its source matrix "
+                       "(not an explicitly 64-bit buffer): the element-wise "
+                       "products are truncated to that type before they are "
+                       "summed"))
+                return None
         kind = "co" if va.order == vb.order else "anti"
         desc = f"{va} x {vb}"
         if out is not None:
